@@ -177,6 +177,28 @@ def oracle(sc):
                                                   and core.close(r3[2], Y, 1e-10, 1e-10 * (1 + float(np.max(np.abs(Y)))))
                                                   and core.close(r3[3], Yc, 1e-10, 1e-10 * (1 + float(np.max(np.abs(Yc)))))):
             return {"sig": "refit-differs-from-fresh-estimator", "what": f"{name}: a Whitening / WCCN object fitted on other data first gives a different projection: {r3!r}"}
+        # the same label list object, re-filled in place with another assignment of the same class ids (a caller that re-uses its
+        # buffers), then fitted again: the projection is the one of the *new* partition
+        y_buf = list(y)
+        c4 = WCCN(pinv=pinv)
+        r4a = core.impl(lambda: c4.fit(xin, y_buf))
+        rot = y_buf[1:] + y_buf[:1]
+        if not isinstance(r4a, core.ImplError) and rot != y_buf and all(rot.count(l) >= 2 for l in set(rot)):
+            y_buf[:] = rot
+            r4 = core.impl(lambda: c4.fit(xin, y_buf))
+            ref4 = core.impl(lambda: np.asarray(WCCN(pinv=pinv).fit(xin, list(rot)).weights, dtype=float))
+            Y4 = core.impl(lambda: np.array(c4.transform(X), dtype=float))
+            ok4 = not isinstance(r4, core.ImplError) and not isinstance(Y4, core.ImplError)
+            if ok4:
+                ra = np.array(rot)
+                Sw4 = np.zeros((D, D))
+                for l in set(rot):
+                    Z = Y4[ra == l] - Y4[ra == l].mean(0)
+                    Sw4 += Z.T @ Z
+                ok4 = np.allclose(Sw4 / len(set(rot)), np.eye(D), atol=1e-6)
+            if not ok4:
+                return {"sig": "wccn-within-class-scatter-not-identity", "what": f"{name}: second fit with the same label list object re-filled in place (labels rotated by one sample): "
+                        f"Sw/K of the transformed data is not the identity ({r4!r})"}
         if name == "numpy":
             # rename the classes 0..K-1 in order of first appearance: same partition
             first = {}
